@@ -80,7 +80,7 @@ class Check:
     level = 'exploration'           # evidence level
     rule = ''                       # how cases are enumerated / what is non-trivial
     assumptions = []
-    budget = {'quick': 100, 'thorough': 1500}
+    budget = {'quick': 240, 'thorough': 3000}
     parallel = True
 
     def cases(self, tier):          # pragma: no cover
